@@ -29,6 +29,22 @@ fn keys_of<T: DataType>(st: &Store<T>) -> String {
     ks.iter().map(|k| hexs(k)).collect::<Vec<_>>().join(",")
 }
 
+/// contents through `keys()` + `get` (independent of `iter`), used for the dump after a save
+fn get_dump<T: DataType>(st: &Store<T>) -> String {
+    let mut v: Vec<(String, String)> = st
+        .keys()
+        .map(|k| {
+            (k.to_string_lossy().to_string(), match st.get(k) {
+                Some(Ok(b)) => format!("o{}", hex(&b)),
+                Some(Err(_)) => "e".to_string(),
+                None => "missing".to_string(),
+            })
+        })
+        .collect();
+    v.sort();
+    v.iter().map(|(k, r)| format!("{}={}", hexs(k), r)).collect::<Vec<_>>().join(",")
+}
+
 fn iter_dump<T: DataType>(st: &Store<T>) -> String {
     let mut v: Vec<(String, String)> = st
         .iter()
@@ -234,7 +250,7 @@ pub fn observe(toks: &[&str]) -> String {
                 Err(_) => ("p".to_string(), false),
             };
             let tree = tree_dump(&sb);
-            let it = match guarded(|| if kind == "d" { iter_dump(&f.data) } else { iter_dump(&f.images) }) {
+            let it = match guarded(|| if kind == "d" { get_dump(&f.data) } else { get_dump(&f.images) }) {
                 Ok(s) => s,
                 Err(_) => "panic".to_string(),
             };
@@ -310,7 +326,7 @@ pub fn observe_path(s: &str) -> String {
         Err(_) => "e",
     };
     format!(
-        "{} p={} f={} abs={} empty={} anc={} img={}",
+        "P {} p={} f={} abs={} empty={} anc={} img={}",
         pform(p),
         par,
         fname,
@@ -323,7 +339,7 @@ pub fn observe_path(s: &str) -> String {
 
 pub fn observe_pair(s: &str, t: &str) -> String {
     let (p, q) = (Path::new(s), Path::new(t));
-    format!("sw={} eq={} join={}", p.starts_with(q) as u8, (p == q) as u8, pform(&p.join(q)))
+    format!("Q sw={} eq={} join={}", p.starts_with(q) as u8, (p == q) as u8, pform(&p.join(q)))
 }
 
 fn all_strings(max: usize, f: &mut dyn FnMut(&str)) {
@@ -379,7 +395,7 @@ pub fn gen_path(_tier: &str, seed: u64, out: &mut dyn Write) {
 
 const KEY_POOL: [&str; 12] =
     ["a", "a/b", "a/b/c", "b", "./a", "a/../b", "..", "../x", "/abs", "", "a/", "a//b"];
-const KEY_EXTRA: [&str; 8] = ["b/a", ".", "a/b/", "c", "a/.", "b/", "a/b/c/d", "./a/b"];
+const KEY_EXTRA: [&str; 9] = ["b/a", ".", "a/b/", "c", "a/.", "b/", "a/b/c/d", "./a/b", "/abs/x"];
 const TREE_DATA: [&str; 7] = ["a", "b", "a/b", "a/b/c", "c", "b/a", "a/c"];
 const TREE_IMG: [&str; 4] = ["a", "b", "c", "a/b"];
 
@@ -454,9 +470,9 @@ fn env_tok(rng: &mut Rng, kind: &str, building: bool) -> String {
 fn history(rng: &mut Rng) -> Vec<String> {
     let kind = if rng.chance(1, 2) { "d" } else { "i" };
     let mut toks = vec!["C16".to_string(), kind.to_string()];
-    let loaded = rng.chance(3, 5);
+    let loaded = rng.chance(2, 3);
     if loaded {
-        for _ in 0..rng.below(6) {
+        for _ in 0..1 + rng.below(6) {
             toks.push(env_tok(rng, kind, true));
         }
         toks.push("LOAD".to_string());
@@ -471,7 +487,7 @@ fn history(rng: &mut Rng) -> Vec<String> {
             let k = if loaded && rng.chance(1, 3) { tree_path(rng, kind) } else { key(rng) };
             format!("I:{}:{}", hexs(k), hex(&content(rng, kind)))
         } else if r < 52 {
-            let k = if loaded && rng.chance(1, 2) { tree_path(rng, kind) } else { key(rng) };
+            let k = if loaded && rng.chance(3, 4) { tree_path(rng, kind) } else { key(rng) };
             format!("G:{}", hexs(k))
         } else if r < 60 {
             let k = if loaded && rng.chance(1, 2) { tree_path(rng, kind) } else { key(rng) };
